@@ -45,6 +45,10 @@ def run(check, tier):
     jobs.append(dict(fn="bad_device__reach", timeout=30))
     jobs.append(dict(fn="bad_device_str", timeout=t * 2, key="bad_device_str"))
     jobs.append(dict(fn="good_device", timeout=t, key="good_device"))
+    # three operations, always: set, then two update_defaults on overlapping keys (scalar and mapping defaults for one key; this
+    # group found the TypeError repaired by b519c8b)
+    for i1 in range(4):
+        jobs.append(dict(fn="seq3", fixed=dict(o1=0, o2=2, o3=2, i1=i1), timeout=max(t, 400), key="history3"))
     if tier == "thorough":
         # three-operation histories: 500 (o1, o2, o3, first key) groups of ~3 CPU-minutes each; a seeded sample of 80 keeps the
         # tier under half an hour on 16 cores (VERIF_SEED selects another sample)
